@@ -289,6 +289,48 @@ def k5_run(carve):
     return _enum_outcome("a cast of a literal operand gives the value of the cast of a column holding that value, and Polars and SQLite agree on the values (6 source types x 7 targets x 3 values)", n, bad)
 
 
+def k9_run(carve):
+    """Float -> String 'writes the floating point number in decimal notation in base 10' - for ordinary, very large and very
+    small magnitudes, identically on Polars and SQLite (native)"""
+    import warnings
+    from decimal import Decimal
+
+    import polars as pl
+    import sqlalchemy as sqa
+
+    from .c13 import _enum_outcome
+
+    pdt = H.pdt
+    vals = [2.5, -0.125, 100.0, 123456.75, 1e15, 2.0**53, 1e22, -1e-7, 1.5e-10, None]
+    if "float_text_magnitude" in carve:
+        vals = [v for v in vals if v is None or 1e-4 <= abs(v) < 1e15]
+    df = pl.DataFrame({"f": pl.Series(vals, dtype=pl.Float64), "h": list(range(len(vals)))})
+    eng = sqa.create_engine("sqlite://")
+    df.write_database("t", eng)
+
+    def canon(v):
+        if v is None:
+            return None
+        t = format(Decimal(repr(v)), "f")
+        return t if "." in t else t + ".0"
+
+    want = [canon(v) for v in vals]
+    n, bad = 0, []
+    with warnings.catch_warnings():
+        warnings.simplefilter("ignore")
+        for be, t in (("polars", pdt.Table(df, name="t")), ("sqlite", pdt.Table("t", pdt.SqlAlchemy(eng)))):
+            n += 1
+            try:
+                got = (t >> pdt.mutate(s=t.f.cast(pdt.String())) >> pdt.arrange(t.h) >> pdt.export(pdt.Polars()))["s"].to_list()
+            except Exception as ex:  # noqa: BLE001
+                bad.append(f"[{be}] {type(ex).__name__}: {str(ex)[:100]}")
+                continue
+            for v, g, w in zip(vals, got, want):
+                if g != w:
+                    bad.append(f"[{be}] {v!r}.cast(String) = {g!r}; decimal notation: {w!r}")
+    return _enum_outcome("Float -> String writes the number in decimal notation, identically on both backends", n, bad)
+
+
 def k8_run(carve):
     """the VALUE of a cast is usable like a stored value of the target type: a Date cast to Datetime equals / orders against
     Datetime columns and literals, prints like one, and casts back (native, Python oracle, both backends)"""
@@ -430,6 +472,8 @@ def obligations(tier):
     ]
     obs.append(Obligation("C17/K5/literal_operands", "K5", "casts of literal (const) operands agree with casts of columns, natively on both backends", k5_run,
                           functions=cfns + [fi(H.sqlite_backend.SqliteImpl.compile_cast), fi(H.polars_backend.compile_col_expr), fi(H.sql_backend.SqlImpl.compile_lit)], bounded="6 source types x 7 targets x 3 sample values x 2 backends, plus 10 nested cast chains (native execution)"))
+    obs.append(Obligation("C17/K9/float_text", "K9", "Float -> String is decimal notation for ordinary, very large and very small magnitudes on both backends (native)", k9_run, functions=cfns, bounded="9 values x 2 backends",
+                          carveouts={"float_text_magnitude": "magnitudes >= 1e15 or < 1e-4"}))
     obs.append(Obligation("C17/K8/cast_values_in_use", "K8", "a cast result compares, orders, prints and casts back like a stored value of the target type (Date -> Datetime; numeric casts)", k8_run, functions=cfns + [fi(H.sqlite_backend.SqliteImpl.compile_cast)],
                           bounded="13 uses of cast results x 2 backends on 4 rows"))
     obs.append(Obligation("C17/K7/source_forms", "K7", "cast results do not depend on the form of the source (dict / DataFrame / LazyFrame, Datetime time units)", k7_run, functions=cfns + [fi(H.polars_backend.PolarsImpl.__init__)],
